@@ -39,6 +39,9 @@ class C03(Hist1Prop):
         return self.FIELDS
 
     def gen_case(self, rng, k, tier):
+        if rng.random() < 0.35:
+            from . import nd_parts
+            return nd_parts.c03_gen(rng)
         tags = []
         if rng.random() < 0.2:
             w = rng.choice([1.0, 0.5, 0.25, 0.1])
@@ -81,6 +84,10 @@ class C03(Hist1Prop):
         return {"kind": "hist1", "ops": ops, "tags": tags, "src": src}
 
     def shrink_candidates(self, case):
+        if case.get("kind") == "histn":
+            from . import nd_parts
+            yield from nd_parts.c03_shrink(case)
+            return
         """remove one data point from all three paths"""
         import copy
         src = case["src"]
@@ -96,6 +103,9 @@ class C03(Hist1Prop):
             yield self.build(s2, case.get("tags", []))
 
     def oracle(self, case, io):
+        if case.get("kind") == "histn":
+            from . import nd_parts
+            return nd_parts.c03_oracle(case, io)
         outs = io["outs"]
         ops = case["ops"]
         fails = []
